@@ -29,7 +29,8 @@ func c17Rows(f int) []model.Row {
 	if f == 0 {
 		return []model.Row{{"a": "1", "b": "2", "c": "foo"}, {"a": "1", "b": "3", "c": "bar"}, {"a": "5", "b": "2", "c": "foo"}, {"c": "quux"}}
 	}
-	return []model.Row{{"a": "1", "c": "zip"}, {"a": "1", "c": "zip"}, {"a": "2", "c": "zap"}}
+	// the rows matching a="1" have different ids than in file 0, so that a bitmap of one file used for the other shows
+	return []model.Row{{"a": "2", "c": "zap"}, {"a": "1", "c": "zip"}, {"a": "2", "c": "zap"}, {"a": "1", "c": "zip"}, {"a": "1", "c": "zop"}}
 }
 
 var c17Opts = []string{"", "?preload=true&lrucache=true&lrucachesize=100000"}
@@ -127,6 +128,8 @@ func c17Play(ctx *rt.Ctx, c c17Case, all bool) (viol string, sigOverride string,
 		os.WriteFile(files[f], c17Masters[f], 0o644)
 	}
 	handles := map[int]*c17Handle{}
+	flk.Sequential(true)
+	defer flk.Sequential(false) // registered first = runs last: the cleanup below must still detect blocking calls
 	defer func() {
 		for _, h := range handles {
 			func() {
@@ -137,8 +140,6 @@ func c17Play(ctx *rt.Ctx, c c17Case, all bool) (viol string, sigOverride string,
 		os.Remove(files[0])
 		os.Remove(files[1])
 	}()
-	flk.PanicOnWait = true
-	defer func() { flk.PanicOnWait = false }()
 	old := debug.SetGCPercent(-1) // a finalizer closing a leaked file would release its lock at a random time
 	defer debug.SetGCPercent(old)
 
@@ -156,6 +157,8 @@ func c17Play(ctx *rt.Ctx, c c17Case, all bool) (viol string, sigOverride string,
 			if r := recover(); r != nil {
 				if wb, ok := r.(flk.WouldBlock); ok {
 					v = fmt.Sprintf("step %d %s hangs: %v", n+1, o, wb)
+				} else if e, ok := r.(error); ok && strings.Contains(e.Error(), "would block forever") {
+					v = fmt.Sprintf("step %d %s hangs: %v", n+1, o, e)
 				} else {
 					v = fmt.Sprintf("step %d %s panicked: %v", n+1, o, r)
 				}
@@ -191,17 +194,36 @@ func c17Play(ctx *rt.Ctx, c c17Case, all bool) (viol string, sigOverride string,
 			conflict := func() bool { lo := liveOpts(h.dsn/2, o.H); return lo[1-h.dsn%2] && !lo[h.dsn%2] }()
 			want := c17Expected(h.dsn / 2)
 			run := func() (string, error) {
+				// a value that occurs nowhere: must give no rows (and must not leave anything behind that blocks Close)
+				if rows, err := h.db.Query(`a = "no such value" ; c`); err != nil {
+					return "", err
+				} else if got, err := readRows(rows); err != nil || got != "" {
+					return "absent value gave " + got, err
+				}
 				if o.Op == "prep" {
 					st, err := h.db.Prepare(c17PrepQuery)
 					if err != nil {
 						return "", err
 					}
 					defer st.Close()
-					rows, err := st.Query("1")
-					if err != nil {
-						return "", err
+					// the same statement executed several times with different arguments
+					for _, arg := range []string{"1", "no such value", "1"} {
+						rows, err := st.Query(arg)
+						if err != nil {
+							return "", err
+						}
+						got, err := readRows(rows)
+						if err != nil {
+							return "", err
+						}
+						if arg == "1" && got != want {
+							return got, nil
+						}
+						if arg != "1" && got != "" {
+							return "absent value gave " + got, nil
+						}
 					}
-					return readRows(rows)
+					return want, nil
 				}
 				rows, err := h.db.Query(c17Query)
 				if err != nil {
